@@ -31,7 +31,7 @@ from vlib import gen, walk
 
 ID = "C18"
 LEVEL = "exploration"
-RULE = ("Hypothesis-generated recipes (1-3 top-level sections, nesting <= 3, 0-6 properties each of value "
+RULE = ("Hypothesis-generated recipes (0-3 top-level sections, nesting <= 3, 0-4 properties each of value "
         "type int/float/str/bool incl. empty value lists, non-ASCII strings, int64 bounds, units, "
         "definitions; 0-2 blocks with 1-D arrays described by a self-referencing range descriptor and "
         "other 1-D/2-D arrays with range/sampled/set descriptors, a group and a tag) are built through the "
@@ -199,6 +199,7 @@ def project(W, companions=()):
 
 
 def keyify(path):
+    path = re.sub(r"/props/[^/]*", "/props", path)       # name-keyed map: the name is not a class
     return re.sub(r"\[\d+\]", "", path) or "/"
 
 
@@ -602,11 +603,11 @@ class FileCase:
                 self.viol("old-read/open-refused/" + vtag, {"error": err})
             else:
                 Wold = open_walk(self.old, _nix().FileMode.ReadOnly)
-                d = walk.diff(model, project(Wold))
-                if d:
-                    self.viol("old-read/" + model_diff_key(self.recipe, d),
-                              {"path": d[0], "recipe": walk.brief(d[1]), "old file reads": walk.brief(d[2])})
-                d = walk.diff(norm(self.W0, self.keep_id, True), norm(Wold, self.keep_id, True))
+                dm = walk.diff(model, project(Wold))
+                if dm:
+                    self.viol("old-read/" + model_diff_key(self.recipe, dm),
+                              {"path": dm[0], "recipe": walk.brief(dm[1]), "old file reads": walk.brief(dm[2])})
+                d = None if dm else walk.diff(norm(self.W0, self.keep_id, True), norm(Wold, self.keep_id, True))
                 if d:
                     self.viol("old-read/walk" + keyify(d[0]),
                               {"path": d[0], "current-format": walk.brief(d[1]), "old file reads": walk.brief(d[2])})
@@ -651,24 +652,30 @@ class FileCase:
                       {"returned": ret, "output": out, "left": _brief_state(state)})
             return False
         good = True
+        raw_bad = False
         if state["version"] != list(self.lib_ver):
             self.viol("upgrade/version-not-current", {"version": state["version"]})
             good = False
+            raw_bad = True
         if state["compound"]:
             self.viol("upgrade/old-property-left/" + stuck_class(self.recipe, state, self.lib_ver),
                       {"left": state["compound"][:4]})
+            raw_bad = True
         if state["alias"]:
             self.viol("upgrade/alias-left", {"left": state["alias"][:4]})
+            raw_bad = True
         if not state["id_valid"]:
-            self.viol("upgrade/file-id-invalid", {"id": state["id"]})
+            self.viol("upgrade/file-id-invalid/" + self.down["id"], {"id": state["id"]})
+            raw_bad = True
         elif self.keep_id and state["id"] != self.W0["id"]:
             self.viol("upgrade/file-id-changed", {"was": self.W0["id"], "now": state["id"]})
         left = upg.collect_tasks(self.up)[0]
-        if left:
+        if left and not raw_bad:
             self.viol("upgrade/tasks-left", {"tasks": [t.__doc__ for t in left]})
         err = try_open(self.up, nixio.FileMode.ReadWrite)
         if err:
-            self.viol("upgrade/read-write-refused", {"error": err})
+            if not raw_bad:
+                self.viol("upgrade/read-write-refused", {"error": err})
             err2 = try_open(self.up, nixio.FileMode.ReadOnly)
             if err2:
                 return False
@@ -702,10 +709,10 @@ class FileCase:
                     vals = [walk.cfloat(x) for x in ex[extra]] if extra == "uncertainty" else list(ex[extra])
                     cand[("/".join(spath), p["name"] + "." + extra)] = (vals, p, extra)
         # model: recipe values / units / definitions / data / ticks
-        d = walk.diff(self.model, project(W, cand))
-        if d:
-            self.viol("%s/%s" % (sub, model_diff_key(self.recipe, d)),
-                      {"path": d[0], "recipe": walk.brief(d[1]), "upgraded": walk.brief(d[2])}, case)
+        dm = walk.diff(self.model, project(W, cand))
+        if dm:
+            self.viol("%s/%s" % (sub, model_diff_key(self.recipe, dm)),
+                      {"path": dm[0], "recipe": walk.brief(dm[1]), "upgraded": walk.brief(dm[2])}, case)
         # per-value extras must remain retrievable: a companion property <name>.<extra> holding the
         # per-value list, or (a single common uncertainty) the uncertainty attribute; extras that were
         # never set (all zero / all empty) need not be represented
@@ -735,15 +742,15 @@ class FileCase:
                           {"section": sp, "prop": p["name"], "generated": vals[:6], "companion": None,
                            "attribute": attr}, case)
             if extra == "uncertainty":
-                if attr is not None and not (set(map(repr, vals)) == {repr(attr)} or
-                                             (not vals and attr == walk.cfloat(0.0))):
+                if (node is not None or not is_set) and attr is not None and not (
+                        set(map(repr, vals)) == {repr(attr)} or (not vals and attr == walk.cfloat(0.0))):
                     self.viol("extras/uncertainty/%s/attribute-wrong" % mode,
                               {"section": sp, "prop": p["name"], "generated": vals[:6], "attribute": attr}, case)
                 props[p["name"]]["uncertainty"] = None
                 if sp in secsA and p["name"] in secsA[sp].get("props", {}):
                     secsA[sp]["props"][p["name"]]["uncertainty"] = None
         # walk-to-walk: everything else the API shows must be as in the never-downgraded file
-        d = walk.diff(A, B)
+        d = None if dm else walk.diff(A, B)
         if d:
             self.viol("%s/walk%s" % (sub, keyify(d[0])),
                       {"path": d[0], "before downgrade": walk.brief(d[1]), "after upgrade": walk.brief(d[2])}, case)
@@ -766,12 +773,13 @@ class FileCase:
                 self.viol("interrupt/return-value/" + exc, {"k": k, "n": n, "want": want, "got": ret, "output": out}, case)
             state = raw_state(self.tmp)
             if state["version"] != list(self.ver):
-                self.viol("interrupt/version-raised-early/" + kcls,
-                          {"k": k, "n": n, "version": state["version"], "left": _brief_state(state)}, case)
+                self.viol("interrupt/version-raised-early",
+                          {"k": k, "n": n, "at": kcls, "version": state["version"], "left": _brief_state(state)}, case)
+                return False                # what a re-run does with such a file says nothing more
             elif try_open(self.tmp, nixio.FileMode.ReadWrite) is None:
-                self.viol("interrupt/read-write-accepted/" + kcls, {"k": k, "n": n}, case)
-            if not upg.collect_tasks(self.tmp)[0]:
-                self.viol("interrupt/not-recognised-as-old/" + kcls, {"k": k, "n": n}, case)
+                self.viol("interrupt/read-write-accepted", {"k": k, "n": n, "at": kcls}, case)
+            elif not upg.collect_tasks(self.tmp)[0]:
+                self.viol("interrupt/not-recognised-as-old", {"k": k, "n": n, "at": kcls}, case)
         else:
             if ret is not True:
                 self.viol("interrupt/no-interruption-yet-failed", {"k": k, "n": n, "got": ret, "output": out}, case)
@@ -788,7 +796,11 @@ class FileCase:
             ret2, _, out2 = run_upgrade(self.tmp)
         state = raw_state(self.tmp)
         if ret2 is not True:
-            self.viol("resume/%s/failed/%s" % (resume, stuck_class(self.recipe, state, self.lib_ver)),
+            # a fresh run works through the file in order: class = first object not converted; a stale
+            # list trips over what is already done: class = dominant kind of step of the file
+            cls = stuck_class(self.recipe, state, self.lib_ver) if resume == "fresh" else \
+                ("props" if self.props else ("alias" if self.aliases else "header"))
+            self.viol("resume/%s/failed/%s" % (resume, cls),
                       {"k": k, "n": n, "returned": ret2, "left": _brief_state(state)}, case)
             return False
         if state["version"] != list(self.lib_ver) or state["compound"] or state["alias"] or not state["id_valid"]:
@@ -925,12 +937,14 @@ def prop_st(draw, name):
 
 @st.composite
 def section_st(draw, name, depth):
-    pnames = draw(st.lists(NAMES, min_size=0, max_size=4 if depth == 1 else 2, unique=True))
+    npr = draw(st.sampled_from([1, 2, 3, 4, 0, 2] if depth == 1 else [0, 1, 2, 1]))
+    pnames = draw(st.lists(NAMES, min_size=npr, max_size=npr, unique=True))
     s = {"name": name, "type": draw(st.sampled_from(["t", "recording", "ü"])),
          "def": draw(st.one_of(st.none(), TEXT)),
          "props": [draw(prop_st(n)) for n in pnames], "subs": []}
     if depth < 3:
-        snames = draw(st.lists(NAMES, min_size=0, max_size=draw(st.sampled_from([0, 1, 1, 2])), unique=True))
+        nsub = draw(st.sampled_from([0, 1, 0, 2] if depth == 1 else [0, 1]))
+        snames = draw(st.lists(NAMES, min_size=nsub, max_size=nsub, unique=True))
         s["subs"] = [draw(section_st(n, depth + 1)) for n in snames]
     return s
 
@@ -973,7 +987,8 @@ def array_st(draw, name):
 
 @st.composite
 def block_st(draw, name):
-    anames = draw(st.lists(NAMES, min_size=1, max_size=3, unique=True))
+    na = draw(st.sampled_from([1, 2, 3, 2]))
+    anames = draw(st.lists(NAMES, min_size=na, max_size=na, unique=True))
     return {"name": name, "type": draw(st.sampled_from(["t", "session"])),
             "md": draw(st.one_of(st.none(), st.integers(0, 5))),
             "arrays": [draw(array_st(n)) for n in anames],
@@ -982,13 +997,14 @@ def block_st(draw, name):
 
 @st.composite
 def file_case_st(draw):
-    snames = draw(st.lists(NAMES, min_size=0, max_size=draw(st.sampled_from([0, 1, 2, 2, 2, 3])), unique=True))
+    ns = draw(st.sampled_from([1, 2, 1, 3, 0, 2]))
+    snames = draw(st.lists(NAMES, min_size=ns, max_size=ns, unique=True))
     nb = draw(st.sampled_from([0, 1, 1, 1, 2]))
     bnames = draw(st.lists(NAMES, min_size=nb, max_size=nb, unique=True))
     recipe = {"secs": [draw(section_st(n, 1)) for n in snames],
               "blocks": [draw(block_st(n)) for n in bnames]}
-    down = {"ver": draw(st.sampled_from(VERSIONS + [[1, 1, 0], [1, 0, 0]])),
-            "id": draw(st.sampled_from(["keep", "remove", "invalid"]))}
+    down = {"ver": draw(st.sampled_from([[1, 1, 0], [1, 0, 0], [1, 1, 1], [1, 2, 0], [1, 1, 0], [1, 0, 0]])),
+            "id": draw(st.sampled_from(["remove", "keep", "invalid"]))}
     if down["id"] == "invalid":
         down["badid"] = draw(st.sampled_from(["", "not-a-uuid", "1234", "ü"]))
     return {"recipe": recipe, "down": down}
@@ -1032,7 +1048,7 @@ def _valid(case):
 
     def sec_ok(lst, depth):
         names = [s.get("name") for s in lst]
-        if len(set(names)) != len(names) or depth > 3:
+        if len(set(names)) != len(names) or (lst and depth > 3):
             return False
         for s in lst:
             if not _name_ok(s["name"]) or not _name_ok(s.get("type")):
